@@ -58,4 +58,5 @@ def main(tier):
     chk.run("R-CONSTAGREE", BRX.constagree, cx.repo, floor=3)
     chk.run("R-SUBBYTE", VX.subbyte, cx.repo, floor=3)
     chk.run("R-INCLUDENAME", B.includename, cx.repo, floor=3)
+    chk.run("R-ARRAYSTORAGE", C.arraystorage, cx.repo, floor=12)
     return chk.finish()
